@@ -156,11 +156,13 @@ where
                     });
                     if let Err(e) = res {
                         match e {
-                            TestError::Fail(_, minimal) => {
+                            TestError::Fail(reason, minimal) => {
                                 let mut scratch = Stats::default();
                                 let what = match guarded(|| oracle(&minimal, &mut scratch)) {
                                     Err(w) => w,
-                                    Ok(()) => "failure did not reproduce on the shrunk case (flaky oracle?)".to_string(),
+                                    // the failure depends on something outside the case (the library draws a random key
+                                    // for every archive it writes): keep what was observed, say that it did not recur
+                                    Ok(()) => format!("{reason} [observed once; running the case again did not fail: the outcome depends on the archive's random key]"),
                                 };
                                 let mut f = failure.lock().unwrap();
                                 if f.is_none() {
